@@ -81,6 +81,9 @@ def _remix(rng, ops):
                 # read sizes of the producer's reader (0 = EINTR), cyclic
                 op["sched"] = rng.choice([[1, 0, 2, 0, 0, 3], [0, 1], [0, 0, 7], [100, 0, 1, 0], [3, 0]])
         out.append(op)
+        if op["ev"] == "feed" and rng.random() < 0.06:
+            # an arena read that hits end of file at once, or an empty piece: must be a no-op for the codec
+            out.append({"ev": "feed", "m": rng.choice(["eof", "borrow", "copy", "anchored", "foreign"]), "n": 0})
         if op["ev"] == "drain" and rng.random() < 0.3:
             out.append({"ev": "drop_shared"})
     return out
@@ -401,6 +404,11 @@ def run_prod(res, work, tier, seed):
     # (c) an arena read split in two (anchored half + copied half); an anchored piece that leaves no slice behind (a lone FE
     #     is held back by the encoder; header bytes alone give the decoder nothing to emit) right after a large borrowed
     #     anchored piece whose chunk nothing else keeps alive
+    for pre_n in (5, 300):
+        inp = _filler(pre_n, rng) + [FE, FD] + _filler(20, rng)
+        for m0 in ("eof", "borrow", "copy"):
+            scripted.append((inp, [{"ev": "feed", "m": "copy", "n": pre_n + 1}, {"ev": "feed", "m": m0, "n": 0},
+                                   {"ev": "feed", "m": "borrow", "n": -1}, {"ev": "finish"}]))
     for n in (3000, 200, 6000):
         inp = _filler(n, rng)
         scripted.append((inp, [{"ev": "feed", "m": "split", "n": -1}, {"ev": "drain", "mode": "read", "n": 10 ** 6}, {"ev": "finish"}]))
@@ -575,6 +583,13 @@ def run_footprint(res, work, tier, seed):
                                              "sizes": rng.choice([[48], [48, 64, 65, 300, 5], [4000, 48]]), "m": "foreign",
                                              "drain": drain, "drain_every": rng.choice([1, 8, 8]), "stride": 31, "seed": rng.randrange(1 << 30)}, "ops": []})
     # the live counters are process-wide atomics: concurrent short histories must leave them at their baseline
+    # call sizes in push()'s opportunistic-copy range (65..256 bytes) and between half and the whole of the largest arena chunk
+    for sizes, m in (([200], "borrow"), ([100, 250, 65, 256], "borrow"), ([786432], "read"), ([786432, 600000, 1048576], "anchored"),
+                     ([200, 70], "anchored")):
+        rid += 1
+        runs.append({"run": rid, "cfg": {"kind": rng.choice(["enc", "pipeline"]), "shape": rng.choice(shapes[:2]), "total": 48 * mib,
+                                         "sizes": sizes, "m": m, "drain": rng.choice(["slices", "bytes", "read"]),
+                                         "stride": 16 if sizes[0] < 1000 else 1, "seed": rid}, "ops": []})
     rid += 1
     runs.append({"run": rid, "cfg": {"kind": "mt", "shape": "ones", "total": 2000 if tier == "quick" else 30000, "sizes": [1],
                                      "seed": 1}, "ops": []})
